@@ -7,6 +7,7 @@ import (
 	"github.com/pion/rtp/codecs"
 
 	"verifharness/fw"
+	"verifharness/gen"
 )
 
 func init() {
@@ -25,7 +26,7 @@ func init() {
 			{Name: "mtu-multiples", N: fw.Const(9*34, 9*34), Run: c16Multiples},
 			{Name: "more-than-65535-fragments", N: fw.Const(12, 60), Run: c16Many},
 			{Name: "random-pairs", N: fw.Const(200000, 4000000), Run: c16Random},
-			{Name: "opus", N: fw.Const(400, 40000), Run: c16Opus},
+			{Name: "opus", N: fw.Const(6000, 60000), Run: c16Opus},
 		},
 	})
 }
@@ -183,7 +184,7 @@ func c16Random(c *fw.Ctx, i int) {
 	if l < 0 {
 		l = 0
 	}
-	c16Both(c, mtu, r.Bytes(l))
+	c16Both(c, mtu, gen.Value(r, l))
 }
 
 func c16Opus(c *fw.Ctx, i int) {
@@ -195,6 +196,9 @@ func c16Opus(c *fw.Ctx, i int) {
 		in = nil
 	} else {
 		in = r.Bytes(r.Range(1, 2000))
+	}
+	if len(in) >= 3 && (i%3 == 0 || i > 321) && r.Chance(1, 2) {
+		gen.WithMagic(r, in) // audio that happens to start like a container header is audio
 	}
 	mtu := uint16(r.Pick(0, 1, 2, 100, 1200, 65535, r.Intn(65536)))
 	pristine := append([]byte(nil), in...)
